@@ -59,7 +59,7 @@ PROPS = {
     "C01": dict(
         rule=HIST_RULE + "; after every block Stump, Pollard and full MapPollard (TotalRows 0,1,3,5,31,50,63) report roots and "
              "leaf count, judged against the reference forest (roots of the compressed slot segments)",
-        strength="P: batching/leaf-count theorems on the reference; Stump.add mirror = reference for every state and batch (stump_add_refines); mirror of Stump.Update driven by canonical proofs = reference over EVERY history of valid blocks (C01_stump_history, <= 2^63 leaves, no axioms); V: Stump/Pollard/MapPollard = reference on every block, mirror = code",
+        strength="P: C01_map_forest_every_history - the mirror of the MapPollard mutators reports the reference roots and leaf count after EVERY valid history of blocks (deletions + additions, remap, empty roots), prunes, ingests, verify-with-remember, full and partial forests, any allocated height; batching/leaf-count theorems on the reference; Stump.add mirror = reference for every state and batch (stump_add_refines); mirror of Stump.Update driven by canonical proofs = reference over EVERY history of valid blocks (C01_stump_history, <= 2^63 leaves, no axioms); V: Stump/Pollard/MapPollard = reference on every block, mirror = code",
         level_text="Theorems about the reference forest (batching independence, leaf count) plus a correspondence run in which "
                    "an oracle extracted from the Coq reference judges the roots all three implementations report after every block "
                    "of random histories. For the roots-only verifier the refinement is proved: the Gallina mirror of Stump.Update (repaired code) "
@@ -72,7 +72,7 @@ PROPS = {
         rule=HIST_RULE + "; before every block Pollard and MapPollard prove the block's deletions and 3 random subsets in random "
              "order; the proofs are compared with the reference's canonical proof; the canonical proof is given to Verify, "
              "Pollard.Verify and MapPollard.Verify (must accept, returned root indexes compared) and to the Verify mirror",
-        strength="P: canonical order; every list of live leaves has a canonical proof (C02_live_sets_provable); the Verify mirror ACCEPTS the canonical proof of any distinct live leaves of any forest <= 2^63 leaves and returns the expected root indexes (C02_canonical_proof_verifies, _root_indexes); MapPollard.Prove mirror = canonical proof (C10 map_prove_canonical); V: Prove = canonical proof, verifiers accept, mirror(Verify) = Verify",
+        strength="P: C02_map_forest_every_history - after every valid history the MapPollard mirror proves its tracked leaves (full forest: any live leaves) with exactly the canonical proof; canonical order; every list of live leaves has a canonical proof (C02_live_sets_provable); the Verify mirror ACCEPTS the canonical proof of any distinct live leaves of any forest <= 2^63 leaves and returns the expected root indexes (C02_canonical_proof_verifies, _root_indexes); MapPollard.Prove mirror = canonical proof (C10 map_prove_canonical); V: Prove = canonical proof, verifiers accept, mirror(Verify) = Verify",
         level_text="Canonical proofs are defined on the Coq reference (siblings of targets-and-ancestors that are not themselves in that "
                    "set, ascending); the extracted oracle checks byte-for-byte that every prover returns them and that every verifier "
                    "accepts them, and the Gallina mirror of Verify/calculateHashes is compared with the code on the same calls.",
@@ -147,7 +147,7 @@ PROPS = {
     "C08": dict(
         rule=HIST_RULE + "; as C07, then Proof.Undo newest-first to depth k (all k sampled), canonical cached proof in the pre-block "
              "state checked after every undo (and Verify against the previous stump), followed by further updates on another branch",
-        strength="P: C08_undo_addition_blocks - the mirror of Proof.Undo computes EXACTLY the expected cached proof of the previous state for every addition-only block (any forest: re-created empty roots, a row lost; <= 2^63 leaves); blocks with deletions: reduced to undoDel alone (C08_undo_reduces_to_undoDel) and decided by kernel computation on all 19,375 cases of 4 slots (C08_undo_all_blocks_4_slots); general proof of the deletion part open; which leaves remain after undo (abstract); the expected cached proof in the previous state exists, is canonical and verifies (C08_expected_cached_*); V: Proof.Undo output = that expected cached proof in the previous state, at every depth",
+        strength="P: C08_undo_addition_blocks - the mirror of Proof.Undo computes EXACTLY the expected cached proof of the previous state for every addition-only block (any forest: re-created empty roots, a row lost; <= 2^63 leaves) and for every block with REGULAR deletions followed by any additions (C08_undo_regular_deletion_blocks); blocks with deletions: reduced to undoDel alone (C08_undo_reduces_to_undoDel) and decided by kernel computation on all 19,375 cases of 4 slots (C08_undo_all_blocks_4_slots); general proof of the deletion part open; which leaves remain after undo (abstract); the expected cached proof in the previous state exists, is canonical and verifies (C08_expected_cached_*); V: Proof.Undo output = that expected cached proof in the previous state, at every depth",
         level_text="Which leaves a cached proof keeps through undo is a Coq theorem on the abstract model (no added leaf, nothing invented, "
                    "nothing lost except what the block deleted); the extracted oracle checks that Proof.Undo yields exactly the canonical "
                    "proof of that set in the previous state, at every depth.",
@@ -159,7 +159,7 @@ PROPS = {
              "from NewMapPollardFromRoots at a reached state; after EVERY operation the stored map and cached leaves are dumped: "
              "every stored (pos,hash) true, stored within allowed(R), needed(R) within stored, cached set = R, look-ups, canonical "
              "proofs of random sub-lists of R; distinct_nontrivial = distinct operation sequences",
-        strength="P: C09_every_history_of_adds_prunes_ingests - from the empty forest EVERY valid sequence of deletion-free blocks, prunes, ingests and verify-with-remember runs without error on the mirror and ends consistent with the reference (all read-side theorems apply), storing only allowed positions; the mutator mirrors PRESERVE one invariant: additions incl. remap and empty roots (C09_additions_preserve_invariant), Prune, Ingest, Verify(remember) (C09_prune/_ingest/_verify_remember_preserves_invariant), with \"stores only what is allowed\" (C09_add_invariant_stores_only_allowed, C09_prune_preserves_tidy); deletions and undo: proof open, V only; ordering of needed positions, read-side theorems on every consistent state (C09c_*); V: stored/needed/allowed invariants and provability after every operation; Gallina mirror of the MUTATORS (Model/MapMut.v: Modify, Undo, Verify(remember), Ingest, Prune) = code state-for-state on every call incl. rejected ones; mirror of the read side (Model/MapRead.v: Prove, GetHash, GetLeafPosition(s), GetRoots, GetMissingPositions, VerifyPartialProof, verify) = code on every dumped state",
+        strength="P: C09_every_history - from the empty forest EVERY valid sequence of general blocks (deletions of any remembered leaves incl. siblings/subtrees/whole trees, then additions incl. remap and empty roots), prunes, ingests and verify-with-remember runs without error on the mirror and ends consistent with the reference (all read-side theorems apply), storing only allowed positions; the mutator mirrors PRESERVE one invariant: additions incl. remap and empty roots (C09_additions_preserve_invariant), Prune, Ingest, Verify(remember) (C09_prune/_ingest/_verify_remember_preserves_invariant), with \"stores only what is allowed\" (C09_add_invariant_stores_only_allowed, C09_prune_preserves_tidy); deletions (C09_deletions_preserve_invariant, MapMutRemoveTidy); undo: V only here (see C06); ordering of needed positions, read-side theorems on every consistent state (C09c_*); V: stored/needed/allowed invariants and provability after every operation; Gallina mirror of the MUTATORS (Model/MapMut.v: Modify, Undo, Verify(remember), Ingest, Prune) = code state-for-state on every call incl. rejected ones; mirror of the read side (Model/MapRead.v: Prove, GetHash, GetLeafPosition(s), GetRoots, GetMissingPositions, VerifyPartialProof, verify) = code on every dumped state",
         level_text="needed(R) and allowed(R) are defined on the Coq reference; after every operation of random interleavings the "
                    "extracted oracle checks the dumped partial forest against them and against the true hashes.",
         technique="Coq reference model + extracted-oracle invariant check after every operation",
@@ -231,7 +231,7 @@ PROPS = {
         rule=HIST_RULE + "; after every block: GetLeafPosition for every live leaf, every dead leaf, every internal node hash and a "
              "fresh hash; GetHash for every position in [0, 2^(rows+1)+3] and 2^40, 2^63, 2^64-2, 2^64-1; NodeMap/NumDels/"
              "CachedLeaves counts; Pollard and full MapPollard (TotalRows 0,4,63)",
-        strength="P: look-up theorems on the reference; V: implementation look-ups = reference; mirror of the MapPollard read side (Model/MapRead.v) = code on every dumped state",
+        strength="P: C10_map_forest_every_history - after every valid history the MapPollard mirror finds a hash exactly when it tracks it (full forest: exactly the live leaves) and reports its true position; look-up/GetHash theorems on every consistent state (C10 map_*); look-up theorems on the reference; V: implementation look-ups = reference; mirror of the MapPollard read side (Model/MapRead.v) = code on every dumped state",
         level_text="Look-up semantics are theorems about the reference layout; every look-up the implementation answers along random "
                    "histories is judged by the extracted oracle.",
         technique="Coq reference model + extracted-oracle correspondence",
